@@ -34,7 +34,7 @@ QUICK = {"c03_p_final_01_fi"}
 REGISTERED_KINDS = {2, 3, 4}
 
 if __name__ == "__main__":
-    lines = [f"h!({n}, {k}, {own}, [{d[0]}, {d[1]}], {allow});" for (n, k, own, d, allow) in names()]
+    lines = [f"h!({n}, {k}, {own}, [{d[0]}, {d[1]}], {allow}, {'cov_created' if allow else 'cov_none'});" for (n, k, own, d, allow) in names()]
     p = os.path.join(HERE, "kani_c03.rs")
     s = open(p).read()
     s = re.sub(r"// GENERATED-BEGIN.*?// GENERATED-END", "// GENERATED-BEGIN (harness/C03/gen.py)\n" + "\n".join(lines) + "\n// GENERATED-END", s, flags=re.S)
